@@ -1,6 +1,6 @@
 (* Extract.v — extraction of the executable model to OCaml (ExtrOcamlBasic only). *)
-From Foca Require Import Ser.
+From Foca Require Import Ser SerdeM.
 Require Extraction.
 Require Import ExtrOcamlBasic.
 Extraction Language OCaml.
-Extraction "model.ml" run_step_ser.
+Extraction "model.ml" run_step_ser run_decode run_encode.
